@@ -757,6 +757,114 @@ def gen_track_update(cls):
     return term, lines_of(fn)
 
 
+# ---- Timeline.schedule ---------------------------------------------------------------------------------------------------------------
+SCHEDULE_PARAMS = ["self", "params", "quantize", "delay", "count", "interpolate", "output_device", "remove_when_done", "name", "replace", "track_index"]
+SCHEDULE_DEFAULTS = ["None", "None", "None", "None", "INTERPOLATION_NONE", "None", "True", "None", "True", "None"]
+SCHEDULE_SKIP = ["if output_device is None:\n    output_device = self.output_devices[0]"]
+NEW_TRACK = "track = Track(self, max_event_count=count, interpolate=interpolate, output_device=output_device, remove_when_done=remove_when_done, name=name)"
+UPDATE_EXISTING = "existing_track.update(params, quantize=quantize, delay=delay, interpolate=interpolate, count=count)"
+UPDATE_NEW = "track.update(copy.copy(params), quantize=quantize, delay=delay)"
+
+
+class ScheduleBlock(OutcomeBlock):
+    EXC = {"TrackLimitReachedException": "RTrackLimit"}
+
+    def on_return(self, v, env):
+        if v[0] != "track":
+            raise Reject("schedule returns a %s" % v[0])
+        return "(%s, ROk)" % env["self"][1]
+
+    def special_expr(self, n, env):
+        src = ast.unparse(n)
+        if src == "self.max_tracks":
+            return ("int", "(max_tracks cfg)")
+        if isinstance(n, ast.Call) and isinstance(n.func, ast.Name) and n.func.id == "len" and len(n.args) == 1 and not n.keywords:
+            l = self.ex(n.args[0], env)
+            if l[0].startswith("list:"):
+                return ("int", "(Z.of_nat (List.length %s))" % l[1])
+        if isinstance(n, ast.Compare) and len(n.ops) == 1 and isinstance(n.ops[0], ast.Eq) and is_attr(n.left, attr="name") \
+                and env.get(n.left.value.id, ("?",))[0] == "track":
+            b = self.ex(n.comparators[0], env)
+            if b[0] != "int":
+                raise Reject("comparison of a name with a %s" % b[0])
+            return ("bool", "(name_is %s %s)" % (env[n.left.value.id][1], b[1]))
+        return OutcomeBlock.special_expr(self, n, env)
+
+    def fork(self, test, env, kt, kf):
+        if ast.unparse(test) == "self.max_tracks":          # truth value of an int
+            return "if negb (max_tracks cfg =? 0) then %s else %s" % (kt(env), kf(env))
+        if ast.unparse(test) == "isinstance(params, Track)":  # the model's schedule receives an event stream, never a Track
+            return kf(env)
+        return OutcomeBlock.fork(self, test, env, kt, kf)
+
+    def classify(self, st, env):
+        src = ast.unparse(st)
+        if src in SCHEDULE_SKIP or is_log(st):
+            return [], lambda env, go: go(env)
+        if src == NEW_TRACK:
+            def render(env, go):
+                e2 = dict(env)
+                e2["track"] = ("track", "track")
+                return "let track := new_track (next_id %s) %s %s %s in\n  %s" % (
+                    env["self"][1], self.coerce(env["count"], "optint"), env["remove_when_done"][1], self.coerce(env["name"], "optint"), go(e2))
+            return ["track"], render
+        if src in (UPDATE_EXISTING, UPDATE_NEW):
+            x = "existing_track" if src == UPDATE_EXISTING else "track"
+
+            def render(env, go):
+                if env.get(x, ("?",))[0] != "track":
+                    raise Reject("call not understood: " + src)
+                e2 = {key: val for key, val in env.items() if not key.startswith("self.") and not key.startswith(x + ".")}
+                e2["self"], e2[x] = ("tl", "self"), ("track", x)
+                cnt = self.coerce(env["count"], "optint") if src == UPDATE_EXISTING else "None"
+                return "let '(self, %s) := src_track_update cfg %s %s %s %s %s %s in\n  %s" % (
+                    x, env["self"][1], env[x][1], env["params"][1], self.coerce(env["quantize"], "optint"), self.coerce(env["delay"], "optint"), cnt, go(e2))
+            return ["self", x], render
+        if src == "existing_track.unmute()":
+            return ["existing_track"], lambda env, go: self.rebind("existing_track", "track", "(src_track_unmute %s)" % env["existing_track"][1], env, go)
+        if src == "self.tracks.append(track)":
+            return ["self"], lambda env, go: self.rebind("self", "tl", "(register_track %s %s)" % (env["self"][1], env["track"][1]), env, go)
+        if isinstance(st, ast.For) and ast.unparse(st.iter) == "self.tracks" and isinstance(st.target, ast.Name) and not st.orelse:
+            # `for x in self.tracks: if <test>: <mutate x>; return x`: the first element that passes the test
+            x = st.target.id
+            if not (len(st.body) == 1 and isinstance(st.body[0], ast.If) and not st.body[0].orelse and isinstance(st.body[0].body[-1], ast.Return)
+                    and ast.unparse(st.body[0].body[-1]) == "return " + x):
+                raise Reject("loop over self.tracks not understood")
+
+            def render(env, go):
+                inner = {key: val for key, val in env.items() if not key.startswith("self.")}
+                inner["self"], inner[x] = ("tl", "self"), ("track", x)
+                c, g = self.ex_g(st.body[0].test, inner)
+                if c[0] != "bool" or g != "true":
+                    raise Reject("test not understood")
+                hit = self.block(list(st.body[0].body[:-1]), inner, lambda e: "(upd_track %s %s, true)" % (e["self"][1], e[x][1]), 1)
+                fun = "(fun (st0 : timeline_t * bool) (%s : track_t) => let '(self, done) := st0 in if done then (self, done) else if %s then %s else (self, done))" % (x, c[1], hit)
+                e2 = {key: val for key, val in env.items() if not key.startswith("self.")}
+                e2["self"] = ("tl", "self")
+                return "let '(self, done) := fold_left %s (tracks %s) (%s, false) in\n  if done then (self, ROk) else %s" % (fun, env["self"][1], env["self"][1], go(e2))
+            return ["self"], render
+        return OutcomeBlock.classify(self, st, env)
+
+
+def gen_schedule(cls):
+    fn = method(cls, "schedule")
+    forbid(fn, BAD + (ast.Try, ast.Lambda, ast.While))
+    a = fn.args
+    if [x.arg for x in a.args] != SCHEDULE_PARAMS or [ast.unparse(d) for d in a.defaults] != SCHEDULE_DEFAULTS or a.vararg or a.kwarg or a.kwonlyargs:
+        raise Reject("Timeline.schedule: unexpected signature")
+    if not any(isinstance(x, ast.Assign) and ast.unparse(x) == "sched = schedule" for x in cls.body):
+        pass
+    b = ScheduleBlock(fn, reserved=(RESERVED | {"done", "st0", "name_is", "register_track", "new_track", "upd_track", "max_tracks", "next_id"}) - {"c"})
+    env = {"self": ("tl", "self"), "params": ("stream", "params"), "quantize": ("optint", "quantize"), "delay": ("optint", "delay"), "count": ("optint", "count"),
+           "interpolate": ("none", "None"), "output_device": ("none", "None"), "remove_when_done": ("bool", "remove_when_done"),
+           "name": ("optint", "name"), "replace": ("bool", "replace"), "track_index": ("none", "None")}
+
+    def fall_off(e):
+        raise Reject("schedule can end without returning the track")
+    term = b.run(body_of(fn), env, fall_off)
+    return term, lines_of(fn)
+
+
 # ---- Track.perform_event: guards, dispatch, control / program change -----------------------------------------------------------------
 EVENT = {"active": ("e_active", "bool"), "duration": ("e_dur", "time")}
 FIELDS["event"] = EVENT
@@ -1099,6 +1207,10 @@ def main(out_path):
     term, lines = gen_track_update(track)
     defs.append("(* Track.update, track.py lines %s (times as exact integers; interpolate=None) *)\n"
                 "Definition src_track_update (cfg : config) (timeline : timeline_t) (self : track_t) (events : stream) (quantize delay count : option Z) : timeline_t * track_t :=\n  %s." % (lines, term))
+    term, lines = gen_schedule(tl)
+    defs.append("(* Timeline.schedule, timeline.py lines %s (params: an already built stream; interpolate, output_device, track_index: defaults) *)\n"
+                "Definition src_timeline_schedule (cfg : config) (self : timeline_t) (params : stream) (quantize delay count : option Z) (remove_when_done : bool)"
+                " (name : option Z) (replace : bool) : timeline_t * opres :=\n  %s." % (lines, term))
     voice, term, lines = gen_perform_event(track)
     defs.append("(* Track.perform_event, note branch: the body of the voice loop (one voice: note, amp, channel, duration * gate) *)\n"
                 "Definition src_track_perform_voice (fail : option nat) (nowT : Z) (st0 : track_t * list call * nat * bool) (v : voice) : track_t * list call * nat * bool :=\n"
